@@ -181,6 +181,61 @@ theorem internal_issuer_for_nonpublic_real (c : Config) (names : List Bytes) (lo
 example : qualifiesForPublic (str "wiki.h.internal") = false ∧ matchWildcard (str "wiki.h.internal") (str "*.h.internal") = true ∧
     isTailscale (str "wiki.h.internal") = false := by decide
 
+/-- **the user's explicit choice of issuers survives automatic HTTPS** (the consumer side of the
+    TLS app's policy list: `getAutomationPolicyForName` after phase 1).  If, in the configured
+    policies — as written in JSON, or as `buildTLSApp` emits them for `tls internal`, `tls
+    <issuer>` … in a Caddyfile — the first policy that admits `d` is `p` and `p` names issuers,
+    then after phase 1 `d` resolves to `p` itself or to the implicit internal-issuer policy:
+    marking, default issuers, the base policy, the implicit internal and tailscale policies
+    never put a policy with OTHER issuers in front of it.  (`hts`: a tailscale subject does not
+    match `d`, e.g. by `tailscale_pattern_matches_tailscale_only` when `d` is no tailscale name.) -/
+theorem explicit_issuer_choice_survives (c : Config) (P : Params) (π : Orders) (d : Name) (p : Policy)
+    (hp : policyFor P d c.policies = some p) (hiss : p.issuers ≠ [])
+    (hts : ∀ o, P.ts o = true → P.mw d o = false) :
+    policyFor P d (policiesOf c P π) = some p ∨
+    ∃ q, policyFor P d (policiesOf c P π) = some q ∧ q.issuers = [Issuer.internal] := by
+  -- after the loop over uniqueDomainsForCerts
+  have h1 : policyFor P d (loopB P c.policies π (mainLoop c P π).1).pols = some p := by
+    unfold loopB
+    rw [(loopB_closed P c.policies _ _ rfl).1]
+    exact policyFor_markRel hiss (markIf_foldl_rel P c.policies _ _) hp
+  have h2 := policyFor_map_fillDefault (P := P) (d := d) hiss h1
+  unfold policiesOf createPolicies
+  generalize (loopB P c.policies π (mainLoop c P π).1).pols = pols at h2
+  -- base policy
+  have h3 : policyFor P d (withBase P (pols.map fillDefault)) = some p := by
+    unfold withBase
+    split
+    · exact h2
+    · rw [policyFor_addBase _ (by rw [h2]; rfl)]; exact h2
+  -- implicit internal policy
+  have h4 : ∀ il : List Name,
+      policyFor P d (withInternal P (baseOf (pols.map fillDefault)) il (withBase P (pols.map fillDefault))) = some p ∨
+      ∃ q, policyFor P d (withInternal P (baseOf (pols.map fillDefault)) il (withBase P (pols.map fillDefault))) = some q ∧
+        q.issuers = [Issuer.internal] := by
+    intro il
+    unfold withInternal
+    split
+    · exact Or.inl h3
+    · rcases policyFor_addPolicy_cases (P := P) (d := d)
+        (ap := ⟨il, [Issuer.internal], (baseOf (pols.map fillDefault)).managers⟩) (withBase P (pols.map fillDefault)) with ⟨_, h⟩ | h
+      · exact Or.inr ⟨_, h, rfl⟩
+      · exact Or.inl (by rw [h, h3])
+  -- implicit tailscale policy: it does not admit `d`
+  unfold withTailscale
+  split
+  · exact h4 _
+  · rename_i htl
+    rw [policyFor_addPolicy_other]
+    · exact h4 _
+    · simp only [admits, Bool.or_eq_false_iff, List.any_eq_false]
+      refine ⟨by simpa using htl, ?_⟩
+      intro o ho
+      have := ((mem_tailscaleOf c P π o).mp ho).2.2
+      simp [hts o this]
+
+example : policyFor exP 1 [⟨[1], [Issuer.internal], 0⟩] = some ⟨[1], [Issuer.internal], 0⟩ := by decide
+
 /-- **what a server contributes depends on that server alone**: if server `s` makes `d`
     qualify in one configuration, `d` qualifies in every configuration with the same HTTP port
     that contains `s` — whatever the other servers and THEIR skip lists are (the seeded change
@@ -435,6 +490,15 @@ theorem redirect_matcher_hosts_sorted (R : Name → Name → Prop) (π : Orders)
 
 example : ∀ ad ∈ domainsByAddr { Orders.id with dom := [1, 2, 3] } (mainLoop exCfg exP Orders.id).2,
     ad.2.Pairwise (fun x y => x < y ∨ x = y) := by decide
+
+/-- **phase 1 runs before anything else of `App.Provision`** (regenerated: the first of the
+    tracked calls) — the routes it inserts are provisioned with the user's, and the TLS app it
+    asks for (`ctx.App("tls")`) is provisioned on demand before it -/
+theorem phase1_runs_first_matches_source : Gen.httpProvisionOrder.head? = some "automaticHTTPSPhase1" := by decide
+
+/-- the Caddyfile global options the `cf` stream drives are registered under these names -/
+theorem auto_https_options_registered_match_source :
+    ["auto_https", "http_port", "https_port"].all Gen.registeredGlobalOptions.contains = true := by decide
 
 /-- the large-list threshold the big-server cases of the harness are sized for -/
 theorem large_host_list_threshold_matches_source : Gen.matchHostLargeThreshold = some 100 := by decide
